@@ -390,8 +390,18 @@ HOSTILE = """
     }
     #[allow(unused_imports)] use self::hostile_defs::*;
     #[allow(unused_macros)] macro_rules! Some { () => {} }
-    #[allow(unused_macros)] macro_rules! unreachable { () => {} }
-    #[allow(unused_macros)] macro_rules! matches { () => {} }
+    #[allow(unused_macros)] macro_rules! unreachable { (hostile) => {} }
+    #[allow(unused_macros)] macro_rules! matches { (hostile) => {} }
+    #[allow(unused_macros)] macro_rules! assert { (hostile) => {} }
+    #[allow(unused_macros)] macro_rules! debug_assert { (hostile) => {} }
+    #[allow(unused_macros)] macro_rules! assert_eq { (hostile) => {} }
+    #[allow(unused_macros)] macro_rules! panic { (hostile) => {} }
+    #[allow(unused_macros)] macro_rules! todo { (hostile) => {} }
+    #[allow(unused_macros)] macro_rules! unimplemented { (hostile) => {} }
+    #[allow(unused_macros)] macro_rules! write { (hostile) => {} }
+    #[allow(unused_macros)] macro_rules! format_args { (hostile) => {} }
+    #[allow(unused_macros)] macro_rules! concat { (hostile) => {} }
+    #[allow(unused_macros)] macro_rules! stringify { (hostile) => {} }
 """
 
 
